@@ -138,7 +138,9 @@ func CommentState(l *lexer) stateFn {
 		for {
 			r := l.next()
 			if r == '*' {
-				r = l.next()
+				// a run of stars may precede the closing slash, as in `**/`
+				for r = l.next(); r == '*'; r = l.next() {
+				}
 				if r == '/' {
 					l.ignore()
 					break
